@@ -16,6 +16,7 @@ C03/C04 territory), which is why "never dropped" is stated for `manageProof`/`ma
 -/
 import Canine.Proofs.StorageA
 import Canine.Proofs.Merkle
+import Canine.Generated.PureFns
 namespace Canine.Storage
 
 /-! ## 1. The challenge always designates an existing chunk -/
@@ -364,5 +365,22 @@ example : AMap.get schedState'.proofs ("bob", schedKey) = AMap.get schedState.pr
     ∃ f', AMap.get schedState'.files schedKey = some f' ∧ ("bob", schedKey) ∈ f'.proofs :=
   C02_honest_prover_survives_block schedState schedState' 154 0 schedState_consistent sched_block
     schedKey schedFile ("bob", schedKey) (by decide) (by decide) sched_bob_recent
+
+/-! ## The window arithmetic as it stands in the source (regenerated tie) -/
+
+/-- `getRoundedWindow`, `ProvenLastBlock`, `ProvenThisBlock` and `IsYoung`, translated from
+x/storage/types/file.go on every run (Generated/PureFns.lean), are the window functions all the
+theorems above are about — and they still read exactly the receiver fields `Start` and
+`ProofInterval`. -/
+theorem C02_generated_window_functions_are_the_model (h start window lp : Int) :
+    Generated.Pure.getRoundedWindow h start window = roundedWindow h start window ∧
+    Generated.Pure.ProvenLastBlock start window h lp = provenLastBlock h start window lp ∧
+    Generated.Pure.ProvenThisBlock start window h lp = provenThisBlock h start window lp ∧
+    Generated.Pure.IsYoung start window h = isYoung h start window ∧
+    Generated.Pure.getRoundedWindow_inputs = [] ∧
+    Generated.Pure.ProvenLastBlock_inputs = ["f.Start", "f.ProofInterval"] ∧
+    Generated.Pure.ProvenThisBlock_inputs = ["f.Start", "f.ProofInterval"] ∧
+    Generated.Pure.IsYoung_inputs = ["f.Start", "f.ProofInterval"] :=
+  ⟨rfl, rfl, rfl, rfl, rfl, rfl, rfl, rfl⟩
 
 end Canine.Storage
